@@ -171,6 +171,17 @@ CANARIES = [
     ("restore-base-not-reset", "c04_dupgraph", "_utils/duplicating_graph.py", "            if node.placeholder._base is not None:\n                node.tensor._base = self.base.tensor\n", "", None),
     ("restore-base-to-placeholder", "c04_dupgraph", "_utils/duplicating_graph.py", "                node.tensor._base = self.base.tensor\n", "                node.tensor._base = self.base.placeholder\n", r"C13\.restore.*members_point_to_the_family_base_again"),
     ("restore-root-only", "c04_dupgraph", "_utils/duplicating_graph.py", "        for node in tuple(self):\n            reroute_ops_through(target=node.tensor", "        for node in tuple(self)[:1]:\n            reroute_ops_through(target=node.tensor", r"C13\.restore.*consumers_rerouted_back"),
+    # ---- _in_place_op success path (c13_inplace: C04/C05/C08/C10.inplace) -------------------------------------------------------------
+    ("inplace-applymask-old-contents-of-owner", "c13_inplace", "tensor_base.py", "                    graph[self].placeholder,\n", "                    graph.base.placeholder,\n", r"C05\.inplace.*masked_result_wrapped_in_ApplyMask"),
+    ("inplace-unview-args-swapped", "c13_inplace", "tensor_base.py", "                _dup.UnView,\n                graph.base.placeholder,\n                placeholder_mutant_view,", "                _dup.UnView,\n                placeholder_mutant_view,\n                graph.base.placeholder,", r"C05\.inplace.*view_target_joined_to_old_owner_by_UnView"),
+    ("inplace-view-fns-tracked", "c13_inplace", "tensor_base.py", "                    view_fn_sequence.append(_track.no_autodiff(f, to_numpy=True))", "                    view_fn_sequence.append(f)", r"C05\.inplace.*view_target_joined_to_old_owner_by_UnView"),
+    ("inplace-views-replayed-on-owner", "c13_inplace", "tensor_base.py", "            view = node.tensor._replay_op(node.parent)\n            _dup.mirror_tensor(source=view, target=node.tensor)\n            node.parent._view_children.append(node.tensor)", "            view = node.tensor._replay_op(graph.base.tensor)\n            _dup.mirror_tensor(source=view, target=node.tensor)\n            node.parent._view_children.append(node.tensor)", r"C04\.inplace.*every_view_replayed_on_its_parent"),
+    ("inplace-views-not-listed", "c13_inplace", "tensor_base.py", "            _dup.mirror_tensor(source=view, target=node.tensor)\n            node.parent._view_children.append(node.tensor)", "            _dup.mirror_tensor(source=view, target=node.tensor)", r"C04\.inplace.*every_view_replayed_on_its_parent"),
+    ("inplace-flag-not-propagated", "c13_inplace", "tensor_base.py", "        placeholder_mutant_view._constant = inplace_target._constant\n", "", r"C10\.inplace.*result_takes_the_targets_flag"),
+    ("inplace-no-force-lock", "c13_inplace", "tensor_base.py", "            _mem.force_lock_tensor_and_creators(placeholder_mutant_view)", "            pass", r"C08\.inplace.*result_force_locked"),
+    ("inplace-inputs-not-placeholders", "c13_inplace", "tensor_base.py", "                        *(graph.get_placeholder_if_exists(t) for t in input_vars),", "                        *input_vars,", r"C04\.inplace.*attempt_on_placeholders"),
+    ("inplace-attempt-guard-on", "c13_inplace", "tensor_base.py", "        try:\n            with _mem.mem_guard_off:\n                placeholder_mutant_view = (", "        try:\n            if True:\n                placeholder_mutant_view = (", r"attempt_with_memory_guarding_suspended|attempt_inside_mem_guard_off"),
+    ("inplace-path-skips-nothing", "c13_inplace", "tensor_base.py", "            for node in graph.get_path_to_base(self)[::-1][1:]:  # skip base", "            for node in graph.get_path_to_base(self)[::-1]:  # skip base", r"C04\.inplace.*(target_is_the_path|attempt_on_placeholders)|C05\.inplace"),
     ("ctx-exit-no-dec", "c15_ctx", "_utils/__init__.py", "        self._depth -= 1\n        self.state = self._depth_tracker.pop(self._depth)", "        self.state = self._depth_tracker.pop(self._depth - 1)", r"C15\.ctx\..*__exit__\.depth"),
     ("ctx-enter-order", "c15_ctx", "_utils/__init__.py", "        self._depth_tracker[self._depth] = self.state\n        self._depth += 1\n        self.state = self._enter_set_value", "        self._depth += 1\n        self.state = self._enter_set_value\n        self._depth_tracker[self._depth - 1] = self.state", r"C15\.ctx\..*__enter__\.saved"),
     ("ctx-exit-swallow", "c15_ctx", "_utils/__init__.py", "        self.state = self._depth_tracker.pop(self._depth)\n", "        self.state = self._depth_tracker.pop(self._depth)\n        return True\n", r"C15\.ctx\..*(returns_falsy|exception_propagates)"),
